@@ -247,11 +247,11 @@ Proof.
     set (d := {| d_id := id; d_fixed := fixed; d_start := start; d_end := end_; d_duration := duration;
                  d_entry := now; d_trigger := 0; d_triggers := []; d_parent := parent; d_owned := owned |}).
     set (ds0 := f_dts f ++ [d]).
-    assert (c02_quiet (snd (if negb fixed && negb (is_ok (c_kind (fc_base c)) (s_raw (f_st f)))
+    assert (c02_quiet (snd (if negb fixed && s_has_cr (f_st f) && negb (is_ok (c_kind (fc_base c)) (s_raw (f_st f)))
               then trigger_dt (chain_fuel ds0) now (f_paused f) id (Z.max (Z.max start now) (f_lsc f)) ds0
               else (ds0, [])))) as H1.
-    { destruct (negb fixed && _); [apply trigger_dt_quiet|c02_q]. }
-    destruct (if negb fixed && _ then _ else _) as [ds1 o1]. cbn [snd] in H1.
+    { destruct (negb fixed && _ && _); [apply trigger_dt_quiet|c02_q]. }
+    destruct (if negb fixed && _ && _ then _ else _) as [ds1 o1]. cbn [snd] in H1.
     assert (c02_quiet (snd (match find_dt id ds1 with
         | Some d1 =>
             if fixed && dt_can_be_triggered now d1
